@@ -21,8 +21,34 @@ INNER = [
     ({'k': 'choice', 'tags': [], 'alts': [{'name': 'x', 't': P.sc('int')}, {'name': 'y', 't': P.sc('octs')}]},
      {'alt': 2, 'v': {'o': [1, 2, 3]}}),
 ]
+# thorough tier: further inner types (long-form lengths, nesting, tagged inner types, every scalar kind)
+INNER_MORE = [
+    (P.sc('octs'), {'o': [i % 256 for i in range(200)]}),
+    (P.sc('octs'), {'o': []}),
+    (P.sc('bool'), {'b': True}),
+    (P.sc('bits'), {'bits': [1, 0, 1, 1, 0, 0, 0, 0, 1]}),
+    (P.sc('oid'), {'arcs': [[1], [3], [6], [1], [4], [1]]}),
+    (P.sc('int', [P.op('E', 2, 5)]), {'neg': True, 'mag': [1, 0]}),
+    (P.sc('octs', [P.op('I', 1, 31)]), {'o': [1, 2, 3]}),
+    ({'k': 'setof', 'tags': [], 'of': P.sc('octs')}, {'es': [{'o': [2]}, {'o': [1, 1]}, {'o': []}]}),
+    ({'k': 'seqof', 'tags': [], 'of': {'k': 'seqof', 'tags': [], 'of': P.sc('int')}}, {'es': [{'es': [U.int_term(1)]}, {'es': []}]}),
+    ({'k': 'seq', 'tags': [], 'comps': [{'name': 'p', 't': P.sc('int'), 'mode': 'req'},
+                                        {'name': 'q', 't': P.sc('bool'), 'mode': 'opt'}]},
+     {'cs': [{'p': True, 'v': U.int_term(0)}, {'p': False}]}),
+    ({'k': 'set', 'tags': [], 'comps': [{'name': 'p', 't': P.sc('int', [P.op('I', 2, 1)]), 'mode': 'req'},
+                                        {'name': 'q', 't': P.sc('octs', [P.op('I', 2, 0)]), 'mode': 'req'}]},
+     {'cs': [{'p': True, 'v': U.int_term(7)}, {'p': True, 'v': {'o': [9]}}]}),
+    ({'k': 'seq', 'tags': [P.op('E', 2, 4)], 'comps': [{'name': 'c', 't': {'k': 'choice', 'tags': [], 'alts': [
+        {'name': 'x', 't': P.sc('int')}, {'name': 'y', 't': {'k': 'seqof', 'tags': [], 'of': P.sc('bool')}}]}, 'mode': 'req'}]},
+     {'cs': [{'p': True, 'v': {'alt': 2, 'v': {'es': [{'b': True}, {'b': False}]}}}]}),
+    ({'k': 'choice', 'tags': [P.op('E', 2, 6)], 'alts': [{'name': 'x', 't': P.sc('int')}, {'name': 'y', 't': P.sc('octs')}]},
+     {'alt': 1, 'v': U.int_term(300)}),
+]
+INNER_QUICK = len(INNER)
+INNER = INNER + INNER_MORE
 TAGGINGS = {'untagged': [], 'implicit': [P.op('I', 2, 3)], 'explicit': [P.op('E', 2, 3)]}
 CODECS = [('ber', True, 0), ('ber', False, 0), ('cer', True, 0), ('der', True, 0)]
+CODECS_MORE = [('ber', True, 2), ('ber', False, 1)]        # thorough tier: segmented strings
 
 
 def gov_value(gk, n):
@@ -64,11 +90,12 @@ def build(container, field, tagging, gk, inner_idx, override, mapped):
 
 
 def run_case(job):
-    cid, container, field, tagging, gk, inner_idx, override, mapped = job
+    cid, container, field, tagging, gk, inner_idx, override, mapped = job[:8]
+    codecs = CODECS + (CODECS_MORE if len(job) > 8 and job[8] else [])
     Tin, vin = INNER[inner_idx]
     vins = [vin] if field == 'any' else [vin, vin]
     ev = []
-    for codec, dm, ch in CODECS:
+    for codec, dm, ch in codecs:
         for resolve in (True, False):
             outer, tin, g, omap = build(container, field, tagging, gk, inner_idx, override, mapped)
             e = {'op': 'open', 'codec': codec, 'def': dm, 'chunk': ch, 'Tin': Tin, 'vin': vins, 'resolved': bool(resolve and mapped),
@@ -119,14 +146,14 @@ def run(ctx):
     cid = 0
     for container, field, tagging, gk in itertools.product(('seq', 'set'), ('any', 'seqof', 'setof'),
                                                            ('untagged', 'implicit', 'explicit'), ('int', 'oid')):
-        for inner_idx in range(len(INNER)):
+        for inner_idx in range(INNER_QUICK if ctx.quick else len(INNER)):
             for override, mapped in ((False, True), (True, True), ('partial', True), (False, False)):
                 if ctx.quick and gk == 'oid' and (container == 'set' or field == 'setof'):
                     continue
                 if container == 'set' and tagging == 'untagged' and field == 'any':
                     continue      # not ASN.1: the members of a SET need distinct tags, an untagged ANY has none
                 cid += 1
-                jobs.append((cid, container, field, tagging, gk, inner_idx, override, mapped))
+                jobs.append((cid, container, field, tagging, gk, inner_idx, override, mapped, not ctx.quick))
     traces = core.pmap(run_case, jobs, chunksize=8)
     with tlc.Scratch('c18') as sc:
         st = json.loads(json.dumps(traces[0]))
@@ -162,8 +189,8 @@ def run(ctx):
                 ctx.keys.add(tuple(sorted(t['meta'].items())) + (e['codec'], e['def'], e['resolve']))
         ctx.sample({'case': traces[0]['meta'], 'event': {k: traces[0]['ev'][0][k] for k in ('codec', 'def', 'resolved', 'st', 'fields', 'wire')}})
     ctx.rule = ('containers {SEQUENCE, SET} x field {ANY, SEQUENCE OF ANY, SET OF ANY} x ANY tagging {untagged, implicit, explicit} x '
-                'governor {INTEGER, OID} x 8 inner types (4 constructed) x {default map, caller override over a wrong default, caller map covering other values only, '
-                'unmapped} x codecs {BER def, BER indef, CER, DER} x resolution {on, off}; each encode+decode is one event judged '
+                'governor {INTEGER, OID} x 8 (quick) / 21 (thorough) inner types x {default map, caller override over a wrong default, caller map covering other values only, '
+                'unmapped} x codecs {BER def, BER indef, CER, DER; thorough also BER with segmented strings} x resolution {on, off}; each encode+decode is one event judged '
                 'by JudgeOpen in spec/Trace_Codec.tla (typed inner value = Norm under the mapped type; raw octets = the '
                 'reference encoding of the inner value in the same codec and length mode)')
     ctx.exhaustive = True
